@@ -173,7 +173,26 @@ Proof.
 Qed.
 Print Assumptions C18_complete_refuted_current.
 
-(** ** Correspondence link (partial, see Proofs/C18CheckProofs.v for the gap) *)
+(** ** Correspondence link *)
+(** The repaired model meets the WHOLE executable spec ([spec_ok]: main-only, tokens in range, run-level coverage
+    of every change a run's tokens moved past - also for runs cut short by a sink failure -, full-sync delivery,
+    the write-during-full-sync clause) on its own observations, for every well-formed case: any graph, history,
+    join list, batch size >= 1, LatestOnly flag, sink failures, writes during a full sync. *)
+Theorem C18_model_meets_spec : forall v c,
+  sound_l v (cfg_of c) -> wf_case c = true -> spec_ok (selfobs v c) = true.
+Proof. exact model_meets_spec. Qed.
+Print Assumptions C18_model_meets_spec.
+
+(** Agreement of the implementation's observations with the repaired model implies the whole executable spec on
+    those observations, the two things agreement cannot determine being taken from the model ([okobs]): the
+    marker count (entity content is not modelled) and WHICH ids a run that ended with a sink failure had delivered
+    (the order inside a dependency's result list is not modelled; [agree] compares their number). *)
+Theorem C18_agree_implies_spec : forall v c,
+  sound_l v (cfg_of c) -> wf_case c = true -> agree v c = true -> spec_ok (okobs v c) = true.
+Proof. exact agree_implies_spec. Qed.
+Print Assumptions C18_agree_implies_spec.
+
+(** older, for EVERY variant: the main-only part on the implementation's own delivered ids *)
 Theorem C18_agree_implies_spec_partial : forall v c, agree v c = true -> spec_main_only c = true.
 Proof. exact agree_implies_main_only. Qed.
 Print Assumptions C18_agree_implies_spec_partial.
@@ -216,6 +235,24 @@ Proof.
   - cbn zeta. eexists. split; [vm_compute; reflexivity|]. split; [vm_compute; reflexivity|].
     split; [|vm_compute; reflexivity]. right. unfold connected_prev. cbn [d_joins]. split; [reflexivity|]. split; [lia|].
     exists 1%N. split; [|reflexivity]. exists 1%nat. split; [now left|]. cbn [j_inv]. triple.
+Qed.
+(** the hypotheses of C18_agree_implies_spec are met by a concrete case with a LatestOnly source, a sink failure
+    in the middle of a fan-out, a write during a full sync and runs to the fixpoint (the observations are the
+    repaired model's own, so they agree with it) *)
+Definition ex_case : tcase :=
+  let r full fail mid := TRun (mkTR full fail 0 mid true [] [] 0 0 [] false []) in
+  mkTC 2 0 [mkDep 1 [mkJoin 0 1 true]] true 1
+       [TW 0 [w 1 [(1, 11)] false; w 2 [(1, 11)] false; w 3 [(1, 11)] false]%N; TW 1 [w 11 [] false]%N;
+        r false None None; TW 1 [w 11 [] false]%N; r false (Some 1%nat) None; r false None None; r false None None;
+        r true None (Some (0%nat, 1%nat, [w 11 [] false]%N)); r false None None; r false None None]
+       [mkDep 1 [mkJoin 0 1 true]].
+Example C18_agree_implies_spec_nonvacuous :
+  sound_l v_fixed (cfg_of ex_case) /\ wf_case (selfobs v_fixed ex_case) = true
+  /\ agree v_fixed (selfobs v_fixed ex_case) = true
+  /\ existsb (fun o => match o with TRun r => negb (tr_ok r) | _ => false end) (tc_ops (selfobs v_fixed ex_case)) = true
+  /\ existsb (fun o => match o with TRun r => tr_middone r | _ => false end) (tc_ops (selfobs v_fixed ex_case)) = true.
+Proof.
+  split; [split; [repeat split|reflexivity]|]. repeat split; vm_compute; reflexivity.
 Qed.
 (** a dependency write that lands between two pages of a full sync is not jumped over: the watermark was taken
     when the full sync started, so the next incremental run re-emits the main entity the first page had
